@@ -7,6 +7,7 @@ C_Signers == {"o1"}
 C_Provs == {"p1", "p2"}
 C_Consumers == {"c1"}
 C_Svcs == {"s1"}
+C_InitDefs == {"s1"}
 PrA == [price |-> 2, pt |-> <<>>, pv |-> <<>>]
 PrB == [price |-> 3, pt |-> <<>>, pv |-> <<>>]
 C_InitBinds == {[s |-> "s1", p |-> "p1", o |-> "o1", dep |-> 8, pr |-> PrA, qos |-> 1, avail |-> TRUE],
